@@ -37,9 +37,16 @@ def candJson (c : Cand) : Json :=
 def handle (j : Json) : Json :=
   let kind : RouterKind := if getStr j "router" = "gorilla" then .gorilla else .legacy
   let d : Doc := ⟨(getArr j "paths").map parsePath, (getArr j "servers").map parseServer⟩
-  let r : Req := ⟨cs (getStr j "method"), getBool j "abs", cs (getStr j "scheme"), cs (getStr j "host"), cs (getStr j "path")⟩
-  let model := match kind with | .legacy => legacyFind d r | .gorilla => gorillaFind d r
+  -- "path" is the escaped path as written on the wire, "dpath" (optional) its decoded form when the two differ
+  let epath := cs (getStr j "path")
+  let dpath := match j.getObjVal? "dpath" with | .ok (.str x) => cs x | _ => epath
+  let w : Wire := ⟨⟨cs (getStr j "method"), getBool j "abs", cs (getStr j "scheme"), cs (getStr j "host"), dpath⟩, epath⟩
+  -- the reading of the path that the router under test matches on (gorillaFindW / legacyFindW), and the other one
+  let r : Req := match kind with | .gorilla => w.raw | .legacy => if d.servers = [] then w.req else w.raw
+  let rAlt : Req := if r = w.raw then w.req else w.raw
+  let model := match kind with | .legacy => legacyFindW d w | .gorilla => gorillaFindW d w
   let sp := specOutcome true d r
+  let spAlt := specOutcome true d rAlt
   let excl :=
     (if exclLegacy14 kind d r then ["Legacy14"] else []) ++
     (if exclSrvEnum33 d r then ["SrvEnum33"] else []) ++
@@ -78,6 +85,7 @@ def handle (j : Json) : Json :=
     (if sp.1 = .route ∧ (sp.2.any (fun c => isLiteralT c.template)) ∧ (specCands true d r).any (fun c => !isLiteralT c.template)
       then [pre ++ "literal.vs.template"] else []) ++
     (if r.abs then [] else [pre ++ "req.serverstyle"]) ++
+    (if w.epath = w.req.path then [] else [pre ++ "req.percent-encoded"]) ++
     excl.map (fun e => "excl." ++ e)
   -- trivial case: nothing matches, nothing is excluded, the model says not-found
   let branches := if model = .notFound ∧ specCands true d r = [] ∧ excl = [] then [] else branches
@@ -85,6 +93,8 @@ def handle (j : Json) : Json :=
     ("model", outcomeJson model),
     ("modelAlts", Json.arr (alts.map outcomeJson).toArray),
     ("spec", jobj [("must", Json.str (mustStr sp.1)), ("allowed", Json.arr (sp.2.map candJson).toArray)]),
+    ("specAlt", if rAlt = r then Json.null else
+      jobj [("must", Json.str (mustStr spAlt.1)), ("allowed", Json.arr (spAlt.2.map candJson).toArray)]),
     ("excl", jstrs excl),
     ("branches", jstrs branches)]
 
